@@ -88,6 +88,15 @@ pub fn appresp_step(s: &mut Src, sh: &Shape, from: u64, idx_off: u64, reject: bo
             assert!(p1.paused, "probe not paused after an entry-carrying append");
         }
     }
+    if p0.state == ProgressState::Snapshot && !reject {
+        // C13 / C15: a peer leaves the Snapshot state only once it has acknowledged the snapshot index
+        let updated = mindex > p0.matched;
+        let caught_up = updated && mindex >= p0.pending_snapshot;
+        assert!((p1.state == ProgressState::Snapshot) == !caught_up, "left / kept the Snapshot state wrongly");
+        if caught_up {
+            assert!(p1.next_idx > p0.pending_snapshot && p1.next_idx > p1.matched);
+        }
+    }
     if p1.state == ProgressState::Snapshot && p0.state == ProgressState::Snapshot {
         assert!(count_to(&r, from).1 == 0, "append sent while a snapshot is outstanding");
     }
@@ -103,7 +112,7 @@ pub fn appresp_step(s: &mut Src, sh: &Shape, from: u64, idx_off: u64, reject: bo
     assert!(expect_commit || c1 == commit0, "scenario designed not to commit did commit");
     let stale = (!reject && mindex <= p0.matched) || (reject && p0.state != ProgressState::Replicate && mindex + 1 != p0.next_idx);
     vcover!(stale || reject || p1.matched > p0.matched, "matched advanced");
-    vcover!(stale || r.msgs.len() >= 1, "something sent");
+    vcover!(stale || p1.state == ProgressState::Snapshot || r.msgs.len() >= 1, "something sent");
     if stale {
         assert!(r.msgs.is_empty() && p1.next_idx == p0.next_idx && p1.state == p0.state, "stale response had an effect");
     }
@@ -144,6 +153,7 @@ pub fn leader_post(r: &raft::Raft<crate::vstore::VStore>, g: &Ghost, sh: &Shape,
         assert!(r.raft_log.last_index() == g.last());
         snapshot_log(r, g);
         assert!(r.raft_log.committed == g.committed);
+        assert_progress_reset(r, sh);
     }
 }
 
